@@ -42,7 +42,11 @@ func TestWorker(t *testing.T) {
 	case "batch":
 		out = runBatch(spec, &j)
 	case "replay":
-		out = Exec(spec, sim.ReplayTapeCap(j.Tape, tapeCap(spec)), j.Tier, true)
+		res := Exec(spec, sim.ReplayTapeCap(j.Tape, tapeCap(spec)), j.Tier, true)
+		for i := 0; j.Class != "" && (res.Viol == nil || res.Viol.Class() != j.Class) && i < j.Retries; i++ {
+			res = Exec(spec, sim.ReplayTapeCap(j.Tape, tapeCap(spec)), j.Tier, true)
+		}
+		out = res
 	case "shrink":
 		out = Shrink(spec, &j)
 	default:
